@@ -98,6 +98,19 @@ impl Session {
         }
     }
 
+    /// whiteout markers of a write layer that was used before (written through the layer's own handle, the
+    /// way the overlay itself does: <layer>/.whiteout/<path>_wo, parents created as needed)
+    pub fn populate_markers(&self, markers: &[Vec<String>]) {
+        if let Some(l0) = self.w.layers.get(0) {
+            for m in markers {
+                let file = format!(".whiteout/{}_wo", self.cx.names.conc_path(m));
+                let p = l0.root.join(&file).expect("marker path");
+                p.parent().create_dir_all().expect("marker parent");
+                p.create_file().expect("marker file");
+            }
+        }
+    }
+
     /// the paths that carry a whiteout marker in the write layer (decoded with the name table; Level-B binding)
     fn markers_json(&self) -> Value {
         let mut out: Vec<Vec<String>> = vec![];
